@@ -18,7 +18,7 @@ Proof. reflexivity. Qed.
 Definition C13_full : Prop :=
   forall tables frames steps, agree gen_cfg tables frames steps = true.
 
-(** * what is proved: statement (1)-(5) of [C13_proved], with the decidable side conditions
+(** * what is proved: statements (1)-(7) of [C13_proved] (Wrap.v), with the decidable side conditions
     [no_capture] / [sql_side_ok] / [fresh_for] / [nodupb] visible, for the configuration read from the
     source.  Unbounded: every query tree, registry, environment, history. *)
 Theorem C13_partial :
@@ -44,6 +44,13 @@ Theorem C13_partial :
         forallb (fun s => negb (registers gen_cfg (lower name) s)) after = true ->
         lookup_table gen_cfg tables (mrun gen_cfg tables st0 (before ++ [SReg name h] ++ after)) name'
         = Some (stored gen_cfg (mrun gen_cfg tables st0 before) d))
+  /\ (forall tables st h e d fr f,
+        heap_get (s_heap st) h = Some d ->
+        fresh_for (fresh (s_next st)) d = true -> nodupb (static_cols (d_leaf d)) = true ->
+        eval_df f d (base tables) = Some fr ->
+        exists d', snd (mstep gen_cfg tables st (SWhere h e)) = ODf d'
+                   /\ eval_df (S f) d' (base tables) = sel_frame [e] None false fr)
+  /\ (forall info e q q', info_right info e -> qualify_sq info true q = Some q' -> eval_sq e q' = eval_sq e q)
   /\ (forall tables steps st h d,
         heap_get (s_heap st) h = Some d ->
         heap_get (s_heap (mrun gen_cfg tables st steps)) h = Some d
@@ -122,6 +129,13 @@ Proof. all_cfgs; vm_compute; reflexivity. Qed.
 Theorem C13_refuted_unresolved_column : forall c, cfg_ok c = true ->
   agree c ex_tables [ex_f0; ex_f1]
     [SReg "v" 0; SSql (mkQuery [] (QSel (FName "bt") [] (Some [(ECol "a", "a")]) false))] = false.
+Proof. all_cfgs; vm_compute; reflexivity. Qed.
+
+(** with an empty schema cache a select alias that shadows an input column is expanded into WHERE *)
+Theorem C13_refuted_alias_expansion : forall c, cfg_ok c = true ->
+  agree c ex_tables [ex_f0; ex_f1]
+    [SSql (mkQuery [] (QSel (FName "bt") [EBin Gt (ECol "a") (ELit (VInt 1))]
+                            (Some [(EBin Add (ECol "a") (ELit (VInt 1)), "a")]) false))] = false.
 Proof. all_cfgs; vm_compute; reflexivity. Qed.
 
 Theorem C13_full_is_false : ~ C13_full.
